@@ -208,4 +208,65 @@ def fieldClass (f : Field) (r : Req) : String :=
   else if clsPrebindExtra f r then "json-prebind-extra"
   else ""
 
+/-! ## The tag-restricted entry points (`BindPath`, `BindForm`, `BindQuery`, `BindHeader`)
+
+  *`BindXxx` uses only the `xxx` tag: each field takes the value source `xxx` carries under the name its
+  `xxx` tag gives (the Go name when the field has no such tag or the tag has an empty name; a tag named `-`
+  takes the field out), converted by Go's text rules; every other source, the body and the declared
+  default are not consulted; a field the source does not carry stays zero unless its `xxx` tag says
+  `required`.*
+
+And, for every entry point: **the outcome of a call is a function of the type and the request alone** —
+whatever other entry points were called before on the same binder, for the same or other types. -/
+
+/-- name and `required` flag under which `f` is bound by the entry point restricted to `s` -/
+def namedBy (f : Field) (s : Src) : Option (Bytes × Bool) :=
+  match f.tags.lookup s with
+  | none => some (f.name, false)
+  | some c =>
+    match splitComma [] c with
+    | [] => none
+    | n :: opts =>
+      let n := if n.isEmpty then f.name else n
+      if n == dash then none else some (n, opts.contains requiredOpt)
+
+def specFieldBy (s : Src) (f : Field) (r : Req) : FOut :=
+  match namedBy f s with
+  | none => .ok .unset
+  | some (n, req) =>
+    if f.ty.slice then
+      match presentAll r s n with
+      | t0 :: ts =>
+        (match convAll f.ty.base (t0 :: ts) with
+          | .ok l => .ok (.many (l.map some))
+          | .err => jsonFromText f.ty .unset t0
+          | .unk => .unk)
+      | [] => if req then .err .required else .ok .unset
+    else
+      match present r s n with
+      | some v =>
+        (match convText f.ty.base v with
+          | .ok x => .ok (.one x)
+          | .err => .err .conv
+          | .unk => .unk)
+      | none => if req then .err .required else .ok .unset
+
+def specFieldsBy (s : Src) (r : Req) : List Field → Outcome
+  | [] => .ok []
+  | f :: fs =>
+    match specFieldBy s f r with
+    | .err e => .err e
+    | .unk => .unk
+    | .ok v => match specFieldsBy s r fs with
+      | .ok vs => .ok (v :: vs)
+      | .err e => .err e
+      | .unk => .unk
+
+/-- **The specification of every entry point**: `none` = `Bind` / `BindAndValidate` (types without
+validation tags), `some s` = the entry point restricted to source `s`.  No binder state appears. -/
+def specBindBy (tg : Option Src) (fields : List Field) (r : Req) : Outcome :=
+  match tg with
+  | none => specBind fields r
+  | some s => specFieldsBy s r fields
+
 end Hertz.Spec.Bind
